@@ -18,7 +18,7 @@ for n in names:
         print(n, "PATCH DOES NOT APPLY"); continue
     try:
         for cid in ids:
-            p = subprocess.run(["./check", cid, "--tier", tier], cwd=V, capture_output=True, text=True, timeout=3600)
+            p = subprocess.run(["./check", cid, "--tier", tier], cwd=V, capture_output=True, text=True, errors="replace", timeout=3600)
             viol = [l for l in p.stdout.split("\n") if l.startswith("VIOLATION ")]
             sigs = []
             for l in viol[:3]:
